@@ -348,6 +348,26 @@ func (e *Enc) applyContract(fr *Frame, c *Contract, key string, args []Term, arg
 		}
 		e.assume(reach, g)
 	}
+	if c.Traced > 0 && e.w.CS.Ghosts["opid"] != nil && e.w.CS.Ghosts["opcall"] != nil {
+		// call trace of the caller (ghost instrumentation of the call site): which traced operation was called last,
+		// with which arguments, and what it returned
+		ik, _ := e.ghostKey("opid")
+		ck, _ := e.ghostKey("opcall")
+		e.heapSet(st, ik, store(e.heapGet(st, ik), Term{"0", SInt}, intLit64(int64(c.Traced))))
+		h := e.heapGet(st, ck)
+		n := 0
+		for i, a := range args {
+			if a.Sort == SIface && n < 3 {
+				h = store(h, intLit64(int64(n)), a)
+				n++
+			}
+			_ = i
+		}
+		if len(rs) > 0 && rs[0].Sort == SIface {
+			h = store(h, Term{"3", SInt}, rs[0])
+		}
+		e.heapSet(st, ck, h)
+	}
 	return rs
 }
 
